@@ -148,6 +148,8 @@ PROPS['C16'] = Prop(
     quick=[_rm('counter_cl', 0, 0, 4, 1, 'CallbackList'), _rm('counter_disp', 1, 0, 4, 1, 'EventDispatcher'), _rm('counter_queue', 2, 0, 4, 1, 'EventQueue'),
            _rm('cond_args_cl', 0, 1, 4, 1, 'CallbackList'), _rm('cond_noargs_disp', 1, 2, 4, 1, 'EventDispatcher'), _rm('cond_args_queue', 2, 1, 3, 1, 'EventQueue'), _rm('cond_both_disp', 1, 3, 3, 1, 'EventDispatcher'), _rm('cond_state_disp', 1, 4, 3, 1, 'EventDispatcher'), _rm('cond_state_cl', 0, 4, 3, 1, 'CallbackList'),
            _rm('counter_hdisp', 3, 0, 3, 1, 'HeterEventDispatcher'),
+           Run('counter_under_faults', 'faults.cpp', {'CLASS': 2}, exc=True, own_new=True, faults=1, covers=6, optional_covers=(3, 5), native=('clang-O1-san', 'clang-O1'),
+               bounds='C16 x exceptions: the dispatcher fault run of C09 (F=1), which contains: a CounterRemover listener with count 2 whose invocation throws on trigger 1 or 2 has still been invoked -- it runs on exactly the first two triggers and never on a third'),
            BmcRun('counter_wrapper_cbmc', 'counter_kernel.cpp', 'counter_laws.c', unwind=7, bounds='E-bmc cross-check: the real CounterRemover wrapper operator() with a stub dispatcher, translated IR->C and decided by CBMC for EVERY 32-bit trigger count and 0..5 triggers; every nsw operation asserted (signed overflow); unwind 7 with unwinding assertions')],
     thorough=[_rm('counter_cl_t', 0, 0, 5, 2, 'CallbackList', budget_s=1700), _rm('counter_disp_t', 1, 0, 5, 2, 'EventDispatcher', budget_s=1700), _rm('counter_queue_t', 2, 0, 5, 2, 'EventQueue', budget_s=1700),
               _rm('cond_args_cl_t', 0, 1, 5, 2, 'CallbackList', budget_s=1700), _rm('cond_noargs_cl_t', 0, 2, 5, 2, 'CallbackList', budget_s=1700),
@@ -173,6 +175,7 @@ def _c18(tier):
             R('anyid_hash_storage_freedig', 1, 2, _AI % ('value storage', 'std::unordered_map dispatcher: 2 registered ids, dispatch by a 3rd; 8-bit digests') + '; digest not a function of the stored value' + reg + how(0), dict(dv(0), FREEDIG=None), budget_s=900),
             R('anyid_laws_nostorage', 0, 0, _AI % ('EmptyAnyStorage', laws)),
             R('anyid_laws_nostorage_d128', 0, 0, _AI % ('EmptyAnyStorage', laws) + '; the Digester returns a 128-bit digest (wider than size_t), both halves symbolic', {'DIGW': 128}),
+            R('anyid_laws_typedstorage_freedig', 3, 0, _AI % ('Storage with NEITHER == nor < that is constructible from any type and has a type() member (std::any-like)', laws) + '; digest not a function of the stored value: values of different stored types may share a digest and are then the same id', {'FREEDIG': None}),
             R('anyid_laws_anystorage', 2, 0, _AI % ('value storage constructible from a value of ANY type (std::any-like), with == and <', laws)),
             BmcRun('anyid_laws_cbmc', 'anyid_kernel.cpp', 'anyid_laws.c', bounds='E-bmc cross-check: the real operator==, operator< and std::hash<AnyId> (both storages) lowered by clang, translated IR->C, and 15 laws over three ids decided by CBMC in one merged formula: fully symbolic 64-bit digests and 32-bit values, no loops (unwind 4 with unwinding assertions)'),
             R('anyid_map_anystorage', 2, 1, _AI % ('value storage constructible from any type', 'std::map dispatcher: 3 registered ids, dispatch by a 4th') + reg + how(1), dv(1), budget_s=900),
@@ -362,8 +365,11 @@ def _ft(name, cls, what, f=1, defs=None, **kw):
     # native replay with clang -O1 builds only: the number of fault points on a path (copy/move constructor calls, and operator new calls that LLVM may elide at -O1) depends on front end and optimisation level
     d = {'CLASS': cls}; d.update(defs or {})
     return Run(name, 'faults.cpp', d, exc=True, own_new=True, faults=f, covers=6, native=('clang-O1-san', 'clang-O1'), bounds=_FT % (what, f), **kw)
+_FTAD = Run('faults_anydata', 'faults.cpp', {'CLASS': 4}, exc=True, own_new=True, faults=1, covers=6, optional_covers=(1, 3, 5), native=('clang-O1-san', 'clang-O1'),
+            bounds='AnyData<32> built from and moved with a tracked value whose copy / move constructor throws, or whose heap block cannot be allocated (F=1): inline-sized and larger-than-inline value; value symbolic')
+PROPS['C17'].quick.append(_FTAD)      # (C17's thorough list is its quick list)
 PROPS['C09'] = Prop(
-    quick=[_ft('faults_cl', 0, 'CallbackList with 1..3 callbacks: append / invoke / copy-construct / copy-assign / move-assign+swap', optional_covers=(3,)),
+    quick=[_FTAD, _ft('faults_cl', 0, 'CallbackList with 1..3 callbacks: append / invoke / copy-construct / copy-assign / move-assign+swap', optional_covers=(3,)),
            _ft('faults_queue', 1, 'EventQueue with 0..3 pending events and a recycled slot: enqueue / process / processOne / processIf / peekEvent / takeEvent', optional_covers=(5,)),
            _ft('faults_disp', 2, 'EventDispatcher: append/prepend/insertListener (existing and new event), via ScopedRemover / CounterRemover / ConditionalRemover, dispatch, copy', optional_covers=(3, 5)),
            _ft('faults_hqueue', 1, 'HeterEventQueue (type-erased slots) with 0..3 pending events and a recycled slot: enqueue / process / processOne / processIf', defs={'HETERQ': None}, optional_covers=(5,)),
